@@ -56,7 +56,7 @@ def _compare(script, impl_lines, model_lines, reply_opts=None, digest_opts=None)
         x = a[i] if i < len(a) else "<missing>"
         y = b[i] if i < len(b) else "<missing>"
         if x != y:
-            if x.startswith("G ") and y.startswith("G ") and norm_digest(x, **(digest_opts or {})) == norm_digest(y, **(digest_opts or {})):
+            if x.startswith("G ") and y.startswith("G ") and norm_digest(x, round_floats=True, **(digest_opts or {})) == norm_digest(y, round_floats=True, **(digest_opts or {})):
                 continue
             return (i, x, y)
     return None
